@@ -18,6 +18,7 @@ from .extract import strip_dropped
 
 
 UNSET = object()
+DELETED = object()  # tombstone in VDict.overrides
 
 
 class PathEnd(Exception):
@@ -621,6 +622,8 @@ class Engine:
         if isinstance(a, VDict) and isinstance(b, VDict):
             if a is b:
                 return True
+            if _ident(a) is _ident(b) and a.items == b.items and a.overrides == b.overrides:
+                return True
             raise OutOfSubset("equality of distinct dict values")
         if type(a) is not type(b):
             return False
@@ -1049,6 +1052,24 @@ class Engine:
             return inner
         return VOpt(z3.simplify(ite(none_of)), inner)
 
+    def st_Delete(self, st, fr):
+        for t in st.targets:
+            if isinstance(t, ast.Subscript):
+                obj = self.force(self.eval(t.value, fr))
+                key = self.force(self.eval(t.slice, fr))
+                if isinstance(obj, VDict) and isinstance(key, (VStr, VInt)):
+                    if not self.branch(self.dict_has(obj, key)):
+                        self.raise_("KeyError", site=st.lineno)
+                    if is_conc(key.z) and not obj.overrides and obj.sym is None:
+                        obj.items.pop(key.z, None)
+                    else:
+                        obj.overrides.append((key.z, DELETED))
+                    continue
+            if isinstance(t, ast.Name) and t.id in fr.locals:
+                del fr.locals[t.id]
+                continue
+            raise OutOfSubset("del of %s" % type(t).__name__)
+
     def st_If(self, st, fr):
         if not getattr(self, "merge_depth", 0) and not self.no_branch and self.try_merged_if(st, fr):
             return
@@ -1355,7 +1376,11 @@ class Engine:
             o.fieldty = dict(v.fieldty)
             return o
         if isinstance(v, VDict):
-            return VDict({}, sym=(self.fresh_name(hint), v.valty or "str"), valty=v.valty or "str")
+            vt = v.valty
+            if vt is None:
+                vals = list(v.items.values()) + [x for _, x in v.overrides]
+                vt = _guess_elemty(vals) or "str"
+            return VDict({}, sym=(self.fresh_name(hint), vt), valty=vt)
         raise OutOfSubset("havoc of %r" % (v,))
 
     # ---- expressions --------------------------------------------------------------------
@@ -1689,6 +1714,14 @@ class Engine:
             ra = getattr(a, "live", None) or a
             rb = getattr(b, "live", None) or b
             return ra is rb
+        if isinstance(a, (VDict, VList)) and isinstance(b, (VDict, VList)):
+            return _ident(a) is _ident(b)
+        if isinstance(a, VFunc) and isinstance(b, VFunc):
+            if a.fi is not None and b.fi is not None:
+                return a.fi.qualname == b.fi.qualname and a.selfobj is b.selfobj
+            return a.ext is not None and a.ext == b.ext and a.selfobj is b.selfobj
+        if isinstance(a, VModule) and isinstance(b, VModule):
+            return a.name == b.name
         return a is b
 
     def contains(self, container, item, node):
@@ -1716,20 +1749,31 @@ class Engine:
             return False
         if not isinstance(k, (VStr, VInt)):
             raise OutOfSubset("dict key %r" % (k,))
+        isstr = isinstance(k, VStr)
+        kz = zstr(k.z) if isstr else zint(k.z)
         alts = []
         if is_conc(k.z):
-            if k.z in d.items:
-                return True
+            base = k.z in d.items
         else:
             for ck in d.items:
-                if isinstance(ck, str) == isinstance(k, VStr):
-                    alts.append(zstr(k.z) == ck if isinstance(ck, str) else k.z == ck)
-        for (ok, _v) in d.overrides:
-            alts.append(zstr(k.z) == zstr(ok))
+                if isinstance(ck, str) == isstr:
+                    alts.append(kz == ck)
+            base = None
         if d.sym is not None:
-            f = z3.Function("dict_has_" + d.sym[0], z3.StringSort() if isinstance(k, VStr) else z3.IntSort(), z3.BoolSort())
-            alts.append(f(zstr(k.z) if isinstance(k, VStr) else zint(k.z)))
-        return self.or_(alts)
+            f = z3.Function("dict_has_" + d.sym[0], z3.StringSort() if isstr else z3.IntSort(), z3.BoolSort())
+            alts.append(f(kz))
+        has = base if base is not None and not alts else self.or_(([base] if base else []) + alts)
+        # later stores / deletions override earlier state, in program order
+        for (ok, v) in d.overrides:
+            same = kz == (zstr(ok) if isstr else zint(ok))
+            present = v is not DELETED
+            if isinstance(has, bool) and isinstance(present, bool):
+                has = z3.If(same, z3.BoolVal(present), z3.BoolVal(has))
+            else:
+                has = z3.If(same, z3.BoolVal(present), zbool(has))
+        if not isinstance(has, bool):
+            has = z3.simplify(has)
+        return has
 
     def dict_get(self, d, k, node=None, default=None):
         """d[k] (default None -> KeyError) with case split on concrete keys."""
@@ -1741,7 +1785,11 @@ class Engine:
         if not isinstance(k, (VStr, VInt)):
             raise OutOfSubset("dict key %r" % (k,))
         for (ok, v) in reversed(d.overrides):
-            if self.branch(zstr(k.z) == zstr(ok)):
+            if self.branch(zstr(k.z) == zstr(ok) if isinstance(k, VStr) else zint(k.z) == zint(ok)):
+                if v is DELETED:
+                    if default is not None:
+                        return default
+                    self.raise_("KeyError", site=getattr(node, "lineno", None))
                 return v
         if is_conc(k.z):
             if k.z in d.items:
@@ -2006,14 +2054,23 @@ class Engine:
         raise OutOfSubset("starred")
 
 
+def _ident(v):
+    return getattr(v, "ident", v)
+
+
 def _container_copy(v):
+    """A copy that can be mutated without touching v, but denotes the same Python object (`is`)."""
     if isinstance(v, VList):
         if v.concrete():
-            return VList(list(v.items), elemty=v.elemty)
-        return VList(None, v.n, v.get, v.elemty)
+            c = VList(list(v.items), elemty=v.elemty)
+        else:
+            c = VList(None, v.n, v.get, v.elemty)
+        c.ident = _ident(v)
+        return c
     if isinstance(v, VDict):
         d = VDict(dict(v.items), sym=v.sym, valty=v.valty)
         d.overrides = list(v.overrides)
+        d.ident = _ident(v)
         return d
     if isinstance(v, VOpt):
         return VOpt(v.isnone, _container_copy(v.inner))
